@@ -1,4 +1,5 @@
 import Gmsm.Model.Padding
+import Gmsm.Model.P7Block
 import Gmsm.Spec.SM4
 import Gmsm.Spec.Modes
 namespace Driver
@@ -48,6 +49,47 @@ def p7stream (args : List String) : String :=
       let ct := (Spec.Modes.cbcEnc (Spec.SM4.encrypt key) iv (Spec.Modes.blocks (p.length / 16) p)).flatten
       hx ct ++ " " ++ hx data
     | _, _, _ => "bad-op"
+  | _ => "bad-op"
+
+end Driver
+
+-- the helper loops of bloc_cryptor.go evaluated by their model (Model.P7Block), next to the spec answer ------------
+namespace Driver
+open Gmsm Model.Padding Model.P7Block
+
+def p7streamModel (args : List String) : String :=
+  match args with
+  | [key, iv, data, s1, s2] =>
+    match ofHex key, ofHex iv, ofHex data, parseScript s1, parseScript s2 with
+    | some key, some iv, some data, some s1, some s2 =>
+      if key.length ≠ 16 then "bad-op"
+      else if h : iv.length = 16 then
+        match p7BlockEnc 1024 (sm4CbcEnc key iv) ⟨data, s1⟩ with
+        | .error _ => "err"
+        | .ok ct =>
+          let got := match p7BlockDecrypt 1024 (sm4CbcDec key ⟨iv, h⟩) ⟨ct, s2⟩ with
+            | .error _ => hx ct ++ " err"
+            | .ok pt => hx ct ++ " " ++ hx pt
+          if got = p7stream args then got else "MODEL-SPEC-MISMATCH " ++ got   -- p7stream = the spec's answer
+      else "panic"
+    | _, _, _, _, _ => "bad-op"
+  | _ => "bad-op"
+
+/-- 3DES is not modelled: the same loops and scripts at block size 8 over a toy cipher keyed by the op's key -/
+def p7rt8Model (args : List String) : String :=
+  match args with
+  | [key, iv, data, s1, s2] =>
+    match ofHex key, ofHex iv, ofHex data, parseScript s1, parseScript s2 with
+    | some key, some iv, some data, some s1, some s2 =>
+      if key.length ≠ 24 then "bad-op"
+      else if h : iv.length = 8 then
+        match roundTrip 1024 (cbcEncMode 8 (toyE 8 key) iv) (cbcDecMode 8 (toyD 8 key) ⟨iv, h⟩) data s1 s2 with
+        | .error _ => "err"
+        | .ok (ct, pt) =>
+          if ct.length ≠ data.length + 8 - data.length % 8 then "ORACLE-FAIL:ct-length"
+          else if pt ≠ data then "ORACLE-FAIL:roundtrip" else "ok"
+      else "panic"
+    | _, _, _, _, _ => "bad-op"
   | _ => "bad-op"
 
 end Driver
